@@ -499,6 +499,13 @@ def process_merge(cx, schemas, cases, tag, rng, all_opts=True, laws=1.3, budget=
             apis.append(1)
         if rng.random() < 0.2:
             apis.append(2)
+        # the same merge with the target and / or the source replaced by duplicates: (leaf-)lists without a sorting tree meet
+        # lists with one (the lyds pool of a consuming merge is built from the source's tree nodes)
+        # (not for trees with flag patterns libyang never produces: lyd_dup normalises those)
+        if c.variant == "valid":
+            apis += [rng.choice([4, 4, 8, 12])]
+            if rng.random() < 0.3:
+                apis.append(rng.choice([4, 5, 6, 8, 12]))
         for o in opts:
             if (o & M_DESTRUCT) and not destr:
                 continue
@@ -507,7 +514,8 @@ def process_merge(cx, schemas, cases, tag, rng, all_opts=True, laws=1.3, budget=
                 lines.append("%s %s merge %s %s %s %d %d" % (i, COMP, d, c.t, c.src, o, api))
                 idx[i] = (c, o, api, k)
     ri, crashes = run_impl(cx, schemas, lines)
-    rm = run_model(cx, schemas, lines)
+    # (the model has no sorting trees: it sees the plain API selector)
+    rm = run_model(cx, schemas, [l.rsplit(" ", 1)[0] + " %d" % (int(l.rsplit(" ", 1)[1]) & 3) for l in lines])
     crash_ids = {c.get("id"): c for c in crashes}
     for l in lines:
         i = l.split()[0]
